@@ -33,6 +33,7 @@ pub fn c02_build(raw: &Raw, _tier: Tier, _sched: bool) -> Scenario {
     o.followups = true;
     o.thunk_ops = true;
     o.mw_dispatch = true;
+    o.cb_dispatch = true;
     o.mws = (0, 2);
     o.pols = &POLS_EVEN;
     o.caps = &CAPS_SMALL;
@@ -89,12 +90,15 @@ pub fn c02_check(scn: &Scenario, h: &History) -> Outcome {
             out.nontrivial = true;
         }
     }
+    if d.ops.values().any(|o| o.th >= 3000 && matches!(d.op(o.th, o.ix), Some(Op::Dispatch { .. }))) {
+        out.class("dispatch-from-inside-a-subscriber-callback");
+    }
     out
 }
 
 pub static C02: Profile = Profile {
     id: "C02",
-    rule: "proptest scenarios: 2-4 producer threads using the three entry points at random, client thunks, effect thunks / Effect::Action, middleware dispatching through its dispatcher (only when the queue cannot fill), all policies, capacity 1-4, stalls. Oracle: for all reduced a,b with Ret(dispatch a) < Inv(dispatch b) in the event log, a precedes b in the pipeline. Non-trivial = the case has an ordered pair of reduced actions dispatched from two different threads or through two different entry points; distinct by scenario hash.",
+    rule: "proptest scenarios: 2-4 producer threads using the three entry points at random, client thunks, effect thunks / Effect::Action, middleware dispatching through its dispatcher and a direct subscriber dispatching into its own store from inside on_notify (both only when the queue cannot fill), all policies, capacity 1-4, stalls. Oracle: for all reduced a,b with Ret(dispatch a) < Inv(dispatch b) in the event log, a precedes b in the pipeline. Non-trivial = the case has an ordered pair of reduced actions dispatched from two different threads or through two different entry points; distinct by scenario hash.",
     raw: raw4,
     build: c02_build,
     check: c02_check,
@@ -205,6 +209,7 @@ pub static C03: Profile = Profile {
 
 pub fn c07_build(raw: &Raw, _tier: Tier, _sched: bool) -> Scenario {
     let mut o = PipeOpts::base("c07");
+    o.cb_dispatch = true;
     o.reducers = (0, 3);
     o.prelude_subs = (0, 3);
     o.mws = (0, 3);
@@ -258,12 +263,15 @@ pub fn c07_check(scn: &Scenario, h: &History) -> Outcome {
             out.nontrivial = true;
         }
     }
+    if d.ops.values().any(|o| o.th >= 3000 && matches!(d.op(o.th, o.ix), Some(Op::Dispatch { .. }))) {
+        out.class("dispatch-from-inside-a-subscriber-callback");
+    }
     out
 }
 
 pub static C07: Profile = Profile {
     id: "C07",
-    rule: "proptest scenarios: 1-4 producers, 0-3 reducers (also stores made by StoreImpl::new / new_with_reducer / new_with_name), 0-3 middlewares, 0-3 direct subscribers at build time / in the prelude, plus add_reducer / add_middleware / add_subscriber from client threads mid-run, verdicts incl. BreakChain. Oracle: per action the callbacks parse as before_reduce* reduce* before_effect* before_dispatch* notify*, each group in registration order, entry/exit strictly nested, all on the store's reducer-context thread, every required component (registered before the dispatch was invoked) present unless a verdict/Keep excuses it. Non-trivial = >= 2 producers, >= 1 middleware and >= 1 run-time component that is required for a later reduced action; distinct by scenario hash.",
+    rule: "proptest scenarios: 1-4 producers, 0-3 reducers (also stores made by StoreImpl::new / new_with_reducer / new_with_name), 0-3 middlewares, 0-3 direct subscribers at build time / in the prelude, plus add_reducer / add_middleware / add_subscriber from client threads mid-run, verdicts incl. BreakChain; in a third of the cases a subscriber dispatches follow-ups into its own store from inside on_notify (re-entrant use: the follow-up must be queued, not run inside the callback). Oracle: per action the callbacks parse as before_reduce* reduce* before_effect* before_dispatch* notify*, each group in registration order, entry/exit strictly nested, all on the store's reducer-context thread, every required component (registered before the dispatch was invoked) present unless a verdict/Keep excuses it. Non-trivial = >= 2 producers, >= 1 middleware and >= 1 run-time component that is required for a later reduced action; distinct by scenario hash.",
     raw: raw4,
     build: c07_build,
     check: c07_check,
